@@ -40,6 +40,8 @@ ASSUMPTIONS = ['constants are defined before the text that uses them is parsed',
                'only judged at finalize (the property is silent about its '
                'call-time value)']
 MACROS = ['M0', 'M1', 'M2', 'sc/M3', 'sc/in/M4', 'M0/sub']
+# macros that only ever hold hashable literals: used as dict KEYS
+KEYMACROS = ['KM0', 'KM1']
 CONST_POOL = ['PI', 'mod.PI', 'pk.mod.PI', 'other.PI', 'E', 'pk.E', 'x.y.Z']
 
 
@@ -59,6 +61,9 @@ def _macro_value(rng, nprod, defined_ok=True):
 def _use_value(rng, names):
   r = rng.random()
   m = {'macro': rng.choice(names)}
+  if rng.random() < 0.08:
+    # two %names as the KEYS of one dict literal
+    return {'dict': [[{'macro': 'KM0'}, {'lit': 1}], [{'macro': 'KM1'}, m]]}
   if rng.random() < 0.15 and names[0].startswith('M'):
     # the same thing spelled as an evaluated reference with a partial name
     m = {'ref': [rng.choice([n for n in names if '/' not in n]), 'macro', True]}
@@ -107,7 +112,10 @@ def gen(rng, tier):
       stmts = []
       for _ in range(rng.randint(1, 3)):
         k = rng.random()
-        if k < 0.5:
+        if k < 0.12:
+          stmts.append({'k': 'macro', 'name': rng.choice(KEYMACROS),
+                        'val': {'lit': rng.choice(['ka', 'kb', 7])}})
+        elif k < 0.5:
           stmts.append({'k': 'macro', 'name': rng.choice(MACROS),
                         'val': _macro_value(rng, nprod)})
         elif k < 0.85 or not abbrevs:
@@ -162,6 +170,24 @@ def gen(rng, tier):
                   'falsy': rng.random() < 0.2})
     else:
       ops.append({'op': 'unevaluated_use', 'name': rng.choice(MACROS[:3])})
+  if rng.random() < 0.06:
+    # a definition refused because the configuration is locked leaves nothing
+    # behind: after unlocking, the name is as unbound as before
+    fresh = rng.choice(['LK0', 'sc/LK1'])
+    ops.extend([
+        {'op': 'clear', 'constants': False},
+        {'op': 'parse', 'skip': False, 'stmts': [
+            {'k': 'bind', 'scope': '', 'sel': 'cons0', 'param': 'x',
+             'val': {'lit': 1}}]},
+        {'op': 'finalize', 'scope': ''},
+        {'op': 'parse', 'skip': False, 'stmts': [
+            {'k': 'macro', 'name': fresh, 'val': {'lit': 5}}]},
+        {'op': 'unlock'},
+        {'op': 'parse', 'skip': False, 'stmts': [
+            {'k': 'bind', 'scope': '', 'sel': 'cons0', 'param': 'y',
+             'val': {'macro': fresh}}]},
+        {'op': 'finalize', 'scope': ''},
+    ])
   return {'nprod': nprod, 'consts': consts, 'ops': ops}
 
 
@@ -184,7 +210,21 @@ def run(case):
     if name.startswith('prod'):
       counters[name] = counters.get(name, 0) + 1
       return log.tok(name)
-    received[name] = dict(named)
+    # the consumer keeps a copy of what it was given, then mutates the
+    # containers it received: no later call may see that
+    # (constants are delivered as the object itself: those are left alone)
+    def mine(x):
+      return not any(x is c for c in const_objs.values())
+    received[name] = {k: (list(x) if type(x) is list and mine(x) else
+                          dict(x) if type(x) is dict and mine(x) else x)
+                      for k, x in named.items()}
+    for x in named.values():
+      if not mine(x):
+        continue
+      if type(x) is list:
+        x.append('MUTATED-BY-CONSUMER')
+      elif type(x) is dict:
+        x['MUTATED-BY-CONSUMER'] = 1
     return None
 
   for i in range(case['nprod']):
@@ -267,6 +307,7 @@ def run(case):
       for x in vs.get(key, []):
         names_in(x, out)
     for k, x in vs.get('dict', []):
+      names_in(k, out)
       names_in(x, out)
 
   def annotate(vs):
@@ -291,7 +332,7 @@ def run(case):
           if not walk(x):
             return False
       for k, x in node.get('dict', []):
-        if not walk(x):
+        if not walk(k) or not walk(x):
           return False
       return True
     return vs if walk(vs) else None
@@ -336,7 +377,17 @@ def run(case):
       return ('deque', [evaluate(x, depth) for x in vs['deque']])
     if 'tuple' in vs:
       return ('tuple', [evaluate(x, depth) for x in vs['tuple']])
-    return ('dict', [(k['lit'], evaluate(x, depth)) for k, x in vs['dict']])
+    items = {}
+    for k, x in vs['dict']:
+      ek = evaluate(k, depth)
+      if ek[0] != 'lit':
+        # an unbound / cyclic key, or one this model does not follow
+        return ek if ek[0] in ('unbound', 'cycle') else ('unbound', '?key')
+      try:
+        items[ek[1]] = evaluate(x, depth)   # (a repeated key: the later wins)
+      except TypeError:
+        return ('unbound', '?unhashable-key')
+    return ('dict', list(items.items()))
 
   def has(ev, kinds):
     if ev[0] in kinds:
@@ -430,6 +481,7 @@ def run(case):
          probes.scrub(str(exc))[:300]))
     return exc
 
+  unlock_cms = []
   for op in case['ops']:
     k = op['op']
     if k == 'parse':
@@ -465,6 +517,14 @@ def run(case):
       if op['constants']:
         const_objs.clear()
       log.add('clear', op['constants'])
+    elif k == 'unlock':
+      if not locked[0]:
+        continue
+      cm = gin.unlock_config()
+      cm.__enter__()
+      unlock_cms.append(cm)
+      locked[0] = False
+      log.add('unlock')
     elif k == 'bind_container':
       if locked[0]:
         continue
@@ -597,6 +657,11 @@ def run(case):
                                      probes.scrub(str(exc))[:300]))
         else:
           locked[0] = True
+  for cm in reversed(unlock_cms):
+    try:
+      cm.__exit__(None, None, None)
+    except Exception:  # pylint: disable=broad-except
+      pass
   seen = set()
   uniq = []
   for x in viol:
